@@ -13,7 +13,7 @@ import (
 
 func init() {
 	register("C09", "Structural clauses of the walk contract: the protocol's path comparison is evaluated under every one of the 13 weak orderings of (byte of p1, byte of p2, separator) and must put the separator lowest and otherwise follow byte order, with the length difference as the tail (finite-ordering evaluation of the SSA branch conditions, exhaustive); the root is never reported; stats are built truthfully by one constructor from lstat-based sources (shared with C01); the inode map is per walk and link names come only from a hit under Nlink>1; sub-root walks prefix path, non-symlink link names and the reported path; the walker's root is the checked result of filepath.EvalSymlinks, tested to be a directory; enumeration is delegated to filepath.WalkDir on root+target. Extended attributes are listed for every kind of entry (loadXattr cannot succeed without llistxattr, mkstat not without loadXattr). loadXattr reads each listed name from the listed path and records it under that name, records every successful read, stores a non-empty result and passes over only names with the platform's skipped prefix; sub-root link names are rewritten only when present (absolute symlink targets only), with the sub-root's name first; every byte access of the path comparison is guarded by index < length. Does not decide 'every entry exactly once' or directory-before-contents (contract of filepath.WalkDir, trusted).", runC09)
-	register("C12", "Structural clauses of the stream validator: a fatal test exists for every lexical rejection class (unclean, absolute, '.', '..', '../' prefix), the last-child comparison rejects the orderings equal and greater and accepts less, a foreign parent is rejected, directory levels are opened only for non-delete directories, and the path comparison is the separator-lowest byte order under all 13 weak orderings of its atoms (exhaustive finite-ordering evaluation). Does not decide the 'if and only if' for all sequences nor the binary search over the open-directory stack.", runC12)
+	register("C12", "Structural clauses of the stream validator: a fatal test exists for every lexical rejection class (unclean, absolute, '.', '..', '../' prefix), the last-child comparison rejects the orderings equal and greater and accepts less, a foreign parent is rejected, directory levels are opened only for non-delete directories, and the path comparison is the separator-lowest byte order under all 13 weak orderings of its atoms (exhaustive finite-ordering evaluation). The consumers of changes (both validators, the disk writer) call no method of the FileInfo of a delete. Does not decide the 'if and only if' for all sequences nor the binary search over the open-directory stack.", runC12)
 }
 
 func runC09(c *Ctx) {
@@ -171,6 +171,84 @@ func runC12(c *Ctx) {
 	r03_2(c, "R12.1")
 	r03_3(c, "R12.2")
 	r09_1(c, "R12.3")
+	r12_4(c, "R12.4")
+}
+
+// R12.4: a delete carries no file information.
+//
+// The diff hands deletions on with a FileInfo that has no stat behind it (and
+// other producers pass nil): the consumers of changes look at the kind before
+// they touch the FileInfo. With every test of the kind pinned to "delete", no
+// method call on the FileInfo parameter is reachable.
+func r12_4(c *Ctx, rule string) {
+	c.R.Rule(rule, "Validator.HandleChange, Hardlinks.HandleChange and DiskWriter.HandleChange call no method of their FileInfo argument when the kind is ChangeKindDelete")
+	n := 0
+	for _, name := range []string{"fsutil.(*Validator).HandleChange", "fsutil.(*Hardlinks).HandleChange", "fsutil.(*DiskWriter).HandleChange"} {
+		fn := c.Fn(rule, name)
+		if fn == nil {
+			continue
+		}
+		var kind, fi *ssa.Parameter
+		for _, q := range fn.Params {
+			t := types.TypeString(q.Type(), nil)
+			switch {
+			case strings.HasSuffix(t, "fsutil.ChangeKind"):
+				kind = q
+			case t == "io/fs.FileInfo" || t == "os.FileInfo":
+				fi = q
+			}
+		}
+		if kind == nil || fi == nil {
+			c.R.OK(rule, c.name(fn)+"/shape", c.P.Pos(fn.Pos()), "no (kind, FileInfo) parameter pair (not interpreted)")
+			continue
+		}
+		func() {
+			defer c.scope(fn)()
+			x := c.explorer(fn)
+			pins := map[string]bool{}
+			eng.Instrs(fn, func(in ssa.Instruction) {
+				b, ok := in.(*ssa.BinOp)
+				if !ok || (b.Op != token.EQL && b.Op != token.NEQ) {
+					return
+				}
+				for i, o := range []ssa.Value{b.X, b.Y} {
+					k, isK := eng.ConstInt([]ssa.Value{b.Y, b.X}[i])
+					if !isK || k != 2 { // ChangeKindDelete
+						continue
+					}
+					if eng.Strip(o) == ssa.Value(kind) || c.DerivesFrom(o, func(v ssa.Value) bool { return v == ssa.Value(kind) }, 2) {
+						pins[x.RegKey(b)] = b.Op == token.EQL
+					}
+				}
+			})
+			con := c.name(fn) + "/delete-touches-no-fileinfo"
+			if len(pins) == 0 {
+				c.R.OK(rule, con, c.P.Pos(fn.Pos()), "the kind is not compared with ChangeKindDelete in a way this rule interprets")
+				return
+			}
+			n++
+			x.Assume = pins
+			x.Target = func(in ssa.Instruction, st *eng.State) bool {
+				call, ok := in.(ssa.CallInstruction)
+				if !ok || !call.Common().IsInvoke() {
+					return false
+				}
+				v := eng.Strip(call.Common().Value)
+				return v == ssa.Value(fi) || c.DerivesFrom(v, func(y ssa.Value) bool { return y == ssa.Value(fi) }, 2)
+			}
+			x.StopAtTarget = true
+			hits := x.Run()
+			switch {
+			case x.Exhausted:
+				c.R.Undecided(rule, con, c.P.Pos(fn.Pos()), "state limit")
+			case len(hits) > 0:
+				c.R.Fail(rule, con, c.pos(hits[0].Instr), "a method of the FileInfo argument is called although the change is a delete (the diff hands deletes on without a stat: nil dereference); path "+eng.BlockTrace(fn, hits[0].Trace))
+			default:
+				c.R.OK(rule, con, c.P.Pos(fn.Pos()), "with the kind pinned to delete no method of the FileInfo is reachable")
+			}
+		}()
+	}
+	c.R.Floor(rule, "change consumers that test the kind before the FileInfo", n, 3)
 }
 
 // weak orderings of three atoms a, b, s as rank triples.
@@ -816,8 +894,41 @@ func r09_5(c *Ctx, rule string) {
 		}
 		return false
 	}
+	// (a store that puts back what the field held - a helper that returns its
+	// argument for a relative target - rewrites nothing)
+	rewriteReachable := func(as map[string]bool) (*eng.Hit, bool) {
+		y := c.explorer(lit)
+		y.Assume = as
+		y.Target = func(in ssa.Instruction, st *eng.State) bool {
+			if !isLinkStore(in) {
+				return false
+			}
+			k := y.KeyOf(in.(*ssa.Store).Val, st)
+			return strings.Contains(k, "Join(") || !strings.Contains(k, "Linkname")
+		}
+		y.StopAtTarget = true
+		hits := y.Run()
+		if y.Exhausted {
+			return nil, true
+		}
+		if len(hits) > 0 {
+			return &hits[0], false
+		}
+		return nil, false
+	}
+	obNoRewrite := func(con string, as map[string]bool, when string) {
+		hit, und := rewriteReachable(as)
+		switch {
+		case und:
+			c.R.Undecided(rule, con, c.P.Pos(lit.Pos()), "state limit exceeded while exploring "+c.name(lit))
+		case hit != nil:
+			c.R.Fail(rule, con, c.pos(hit.Instr), "a store to Linkname is reachable although "+when+"; path "+eng.BlockTrace(lit, hit.Trace))
+		default:
+			c.R.OK(rule, con, c.P.Pos(lit.Pos()), "no rewrite of Linkname when "+when)
+		}
+	}
 	if len(emptyPins) > 0 {
-		c.ObUnreachable(rule, base+"/rewrite-only-when-named", lit, emptyPins, isLinkStore, "a store to Linkname", "the entry has no link name (every plain file would become a hard link to the sub-root)")
+		obNoRewrite(base+"/rewrite-only-when-named", emptyPins, "the entry has no link name (every plain file would become a hard link to the sub-root)")
 	} else {
 		c.R.OK(rule, base+"/rewrite-only-when-named", c.P.Pos(lit.Pos()), "no emptiness test of the link name of a shape this rule interprets")
 	}
@@ -832,7 +943,7 @@ func r09_5(c *Ctx, rule string) {
 		for k, v := range emptyPins {
 			as[k] = !v
 		}
-		c.ObUnreachable(rule, base+"/relative-symlink-kept", lit, as, isLinkStore, "a store to Linkname", "the entry is a symlink with a relative target (it keeps its spelling)")
+		obNoRewrite(base+"/relative-symlink-kept", as, "the entry is a symlink with a relative target (it keeps its spelling)")
 	} else {
 		c.R.OK(rule, base+"/relative-symlink-kept", c.P.Pos(lit.Pos()), "no absolute-path test of the link name of a shape this rule interprets")
 	}
